@@ -708,6 +708,8 @@ def do_case(binary, case, model_ok, res_factory=C.Result):
     rnd = random.Random(case["gen_seed"])
     scn = gen_scenario(fl, rnd, R, case["blocks"], R == 1, scale=case.get("scale", 1.0))
     sr = run_case(binary, fl, case, scn["lines"])
+    if sr.verdict == "wall-timeout":            # a loaded machine is not a violation: once more with a generous limit
+        sr = run_case(binary, fl, dict(case, timeout=300), scn["lines"])
     frag = res_factory()
     pub = case_public(case)
     info = {"verdict": sr.verdict, "nops": sum(len(b["ops"]) for b in scn["blocks"]), "contended": 0, "skipped": False}
